@@ -93,3 +93,20 @@ Example C15_case_example : lower_str [304; 8490; 937]%N = [105; 775; 107; 969]%N
   lower_str [913; 931]%N = [945; 962]%N /\ lower_str [913; 931; 913]%N = [945; 963; 945]%N /\ lower_str [931]%N = [963]%N /\ lower_str [913; 931; 46; 32; 931]%N = [945; 962; 46; 32; 963]%N.
 Proof. vm_compute. repeat split; reflexivity. Qed.
 Print Assumptions C15_lowercase_idempotent. Print Assumptions C15_case_builtins.
+
+(* insert puts the text in before the k-th character: the length adds up, copy at that position gives the inserted text back, taking it out again gives the original; contains on an array is
+   membership up to `=`; all / any are "every / some member equals true" *)
+Theorem C15_insert_laws : forall (t s:list N) k, (k <= length t)%nat ->
+  length (firstn k t ++ s ++ skipn k t) = (length t + length s)%nat /\ firstn (length s) (skipn k (firstn k t ++ s ++ skipn k t)) = s /\
+  firstn k (firstn k t ++ s ++ skipn k t) ++ skipn (k + length s) (firstn k t ++ s ++ skipn k t) = t.
+Proof. intros t s k H. split; [apply insert_length, H | split; [apply insert_then_copy, H | apply insert_then_remove, H]]. Qed.
+Theorem C15_insert_builtin : forall off, (off <= 1)%nat -> forall (t s:list N) k, (k <= length t)%nat -> (Z.of_nat k + 1 <= 2^52)%Z ->
+  call_builtin off insert_name [VStr t; VStr s; IndexFacts.pos off k] = BOk (VStr (firstn k t ++ s ++ skipn k t)).
+Proof. exact insert_builtin. Qed.
+Theorem C15_contains_array_builtin : forall off h n, call_builtin off contains_name [VArr h; n] = BOk (VBool (existsb (fun v => veq v n) h)) /\
+  (existsb (fun v => veq v n) h = true <-> exists v, In v h /\ veq v n = true).
+Proof. exact contains_array_builtin. Qed.
+Theorem C15_all_any_builtin : forall off ps, call_builtin off all_name ps = BOk (VBool (forallb (fun v => veq v (VBool true)) (smart_vec ps))) /\
+  call_builtin off any_name ps = BOk (VBool (existsb (fun v => veq v (VBool true)) (smart_vec ps))).
+Proof. exact all_any_builtin. Qed.
+Print Assumptions C15_insert_builtin.
